@@ -14,10 +14,12 @@ CONSTANTS
   BugPtr = FALSE
   BugWait = FALSE
   BugListen = FALSE
+  Mut = ""
 VIEW View
 SYMMETRY Symm
 INVARIANT QuiescentAnnounced
 INVARIANT DeliveryInAnnouncedEpoch
+INVARIANT RequestsNamedAndCurrent
 INVARIANT NoSilentDropAtQuiescence
 INVARIANT OneActiveSession
 INVARIANT NoLeftovers
